@@ -23,7 +23,7 @@ def rand_row(rng, n, sparse):
     r = [rng.random() for _ in range(n)]
     if sparse:
         for k in range(n):
-            if rng.random() < 0.45:
+            if rng.random() < 0.3:
                 r[k] = 0.0
         if sum(r) == 0 and rng.random() < 0.8:
             r[rng.randrange(n)] = 1.0
@@ -37,7 +37,7 @@ def rand_emission(rng, kind):
     u = rng.random()
     if kind == "pos":
         return 10.0 ** (-rng.uniform(0, 3))
-    if u < 0.08:
+    if u < 0.03:
         return 0.0
     if u < 0.14:
         return 1.0
@@ -61,7 +61,7 @@ def tables(rng, n, T, kind):
     if kind == "pos":
         F = [max(x, 1e-3) for x in F]
     E = [rand_emission(rng, kind) for _ in range(n * T)]
-    if kind != "pos" and rng.random() < 0.08:
+    if kind != "pos" and rng.random() < 0.04:
         # a whole position with probability zero
         t = rng.randrange(T)
         for j in range(n):
@@ -106,6 +106,11 @@ def generate(seed, tier):
         for b in subsets:
             bs = " ".join(map(str, b))
             ops += ["brk r " + bs, "brk l " + bs, "brk g " + bs, "agree r l g"]
+            if rng.random() < 0.5:
+                ops += ["post r", "post g"]
+            if rng.random() < 0.2:
+                ops += [rng.choice(["sls r", "sls g", "sl r %d" % rng.randrange(T), "sl g %d" % rng.randrange(T),
+                                    "post1 r %d" % rng.randrange(T), "post1 g %d" % rng.randrange(T)])]
         cases.append(["case enum%d n=%d T=%d %s" % (i, n, T, kind)] + ops)
     # ---- chunk
     n_chunk = 120 if thorough else 30
@@ -134,6 +139,10 @@ def generate(seed, tier):
         for _ in range(3):
             bs = " ".join(map(str, rand_breaks(rng, T)))
             ops += ["brk r " + bs, "brk l " + bs, "brk g " + bs, "agree r l g"]
+        if T <= 300:
+            ops += ["post r", "post g", "sls r"]
+        else:
+            ops += ["post1 r %d" % rng.randrange(T), "post1 g %d" % rng.randrange(T), "sl r %d" % rng.randrange(T)]
         cases.append(["case long%d n=%d T=%d %s c=%d" % (i, n, T, kind, c)] + ops)
     # ---- hist
     n_hist = 400 if thorough else 90
@@ -184,8 +193,20 @@ def generate(seed, tier):
                 bs = " ".join(map(str, rand_breaks(rng, T)))
                 for o in objs:
                     ops.append("brk %s %s" % (o, bs))
-            elif u < 0.85:
+            elif u < 0.72:
                 ops.append("agree r l g")
+            elif u < 0.80:
+                ops.append("post %s" % rng.choice(["r", "g", "r", "g", "l"]))
+            elif u < 0.86:
+                ops.append("%s %s %d" % (rng.choice(["post1", "sl"]), rng.choice(["r", "g"]), rng.randrange(T)))
+            elif u < 0.89:
+                ops.append("sls %s" % rng.choice(["r", "g"]))
+            elif u < 0.96:
+                var = "e%d_%d" % (rng.randrange(T), rng.randrange(n)) if rng.random() < 0.85 else rng.choice(["p0_0", "f0", "zz"])
+                o = rng.choice(["r", "r", "r", "l", "g"])
+                ops.append("d1 %s %s" % (o, var))
+                if rng.random() < 0.5:
+                    ops.append("d1 %s %s" % (o, var))      # same variable again: served from the cache
             else:
                 ops.append("ll %s" % rng.choice(objs))
         ops.append("agree r l g")
